@@ -540,8 +540,9 @@ pub fn plans(id: &str, tier: Tier) -> Vec<Plan> {
 pub fn run(id: &str, report: &mut Report, budget: Duration) {
     let started = Instant::now();
     let plans = plans(id, report.tier);
-    // quick: the budget is shared out evenly; thorough: most plans are bounded and short, so each may take a third
-    let per_plan = if report.tier.thorough() { budget / 3 } else { budget / plans.len().max(1) as u32 };
+    // every plan is bounded or small; the cap only guards against a machine so loaded that a level cannot finish
+    // (it is reported as time_cap_hit / exhaustive:false, never silently)
+    let per_plan = if report.tier.thorough() { budget / 3 } else { budget / 2 };
     let mut states: HashSet<u64> = HashSet::new();
     let mut transitions = 0u64;
     let mut executions = 0u64;
